@@ -8,6 +8,19 @@ pep      := h:seq [n u32 mod…] opt(u32 nterm) opt(u32 cterm) u32(monoisotopic)
 ions pep                                        | [k u32…]×6 (a b c x y z)            | panic
 ionidx [k kind…] min_ion_index bucket [p pep…]  | [f (pep_ix u32)…] sorted by (pep_ix, bits) | panic
 ionconst tol_micro_da                           | u32×4   -(C+O), NH3, C+O-NH3+N+H, -NH3
+ionidxb style opt(min_ion_index) opt([k kind…]) opt(bucket_size) [t threads…] [p pep…]
+        | min_ion_index [k kind…] bucket_size  [f (pep_ix u32)…]  (t−1)×( 1 | 0 [f (pep_ix u32)…] ) order_ok  | panic
+```
+
+`ionidxb` goes through the configuration path of sage-cli: the harness writes the optional settings as
+JSON text (`style` picks the rendering: absent key / explicit `null` / key order), deserialises it into
+`sage_cli::input::Input`, calls `Input::build()` (→ `Builder::make_parameters`) and runs
+`build_from_peptides` inside an explicit rayon pool of each listed size. The reply echoes the
+resolved `Parameters` fields, gives the fragment list of the first pool size, and for every further
+pool size `1` (identical) or `0` + its list. The spec checks, per peptide index, that the multiset of
+masses stored under that index is the ion-series definition for THAT peptide of the request.
+
+```
 ```
 
 `agree` is exact token equality everywhere (only `+ −` and negation are involved; the model performs
@@ -138,21 +151,57 @@ def renderFrags (l : List (Nat × Nat)) : String :=
 
 def bitsOf (l : List (Nat × Float32)) : List (Nat × Nat) := l.map (fun f => (f.1, f.2.toBits.toNat))
 
+def leNat (a b : Nat) : Bool := decide (a ≤ b)
+
+/-- sorted multiset of mass bit patterns the definition puts under ONE peptide (by-ordinal selection,
+    computed from the request's peptide at `Float32`) -/
+def wantBits (kinds : List Kind) (minIdx : Nat) (r : RawPep) : List Nat :=
+  ((specFragments constsF kinds minIdx [r.toF]).map (fun f => f.2.toBits.toNat)).mergeSort leNat
+
+def blankRaw : RawPep := ⟨[], [], none, none, 0⟩
+
+/-- per peptide index: compare what is stored under it with the definition for that peptide and name
+    the two recognisable failure shapes (an ion of another peptide; the first ions of every series
+    missing / present as if `min_ion_index` had another value) -/
+def perPeptide (kinds : List Kind) (minIdx : Nat) (raws : List RawPep) (impl : List (Nat × Nat)) : Option String :=
+  let np := raws.length
+  let wants := raws.map (wantBits kinds minIdx)
+  (List.range np).findSome? (fun i =>
+    let r := raws.getD i blankRaw
+    let got := ((impl.filter (fun f => f.1 == i)).map (·.2)).mergeSort leNat
+    let want := wants.getD i []
+    if got == want then none else
+    let foreign := got.filter (fun m => !want.contains m)
+    match (List.range np).find? (fun j => j != i && foreign.any (fun m => (wants.getD j []).contains m)) with
+    | some j => some s!"bad:ion_under_wrong_peptide@pep{i}<-pep{j}"
+    | none =>
+      let n := r.seq.length
+      match ((List.range (n + 1)).filter (fun m => decide (minIdx < m))).find? (fun m => got == wantBits kinds m r) with
+      | some m => some s!"bad:first_ions_missing@pep{i}:min_ion_index_{minIdx}_acts_as_{m}"
+      | none =>
+        match (List.range minIdx).find? (fun m => got == wantBits kinds m r) with
+        | some m => some s!"bad:first_ions_not_removed@pep{i}:min_ion_index_{minIdx}_acts_as_{m}"
+        | none => none)
+
 /-- the executable spec of the index content on the implementation's fragment list -/
 def specIdx (kinds : List Kind) (minIdx : Nat) (raws : List RawPep) (impl : List (Nat × Nat)) : String :=
   let np := raws.length
   -- 1. every fragment is tagged with an existing peptide
   if impl.any (fun f => f.1 ≥ np) then "bad:peptide_index_out_of_range" else
-  -- 2. per peptide: as many fragments as there are (kind, ordinal) pairs with min_ion_index < ordinal < n
+  -- 2. per peptide index, bit-exact against the definition for THAT peptide: recognisable shapes first
+  match perPeptide kinds minIdx raws impl with
+  | some s => s
+  | none =>
+  -- 3. per peptide: as many fragments as there are (kind, ordinal) pairs with min_ion_index < ordinal < n
   let countBad := (List.range np).find? (fun i =>
-    let n := (raws.getD i ⟨[], [], none, none, 0⟩).seq.length
+    let n := (raws.getD i blankRaw).seq.length
     (impl.filter (fun f => f.1 == i)).length != kinds.length * (n - 1 - minIdx))
   match countBad with
   | some i => s!"bad:count@pep{i}"
   | none =>
-  -- 3./4. in exact arithmetic: nothing but the defined ions, and all of them
+  -- 4./5. in exact arithmetic: nothing but the defined ions, and all of them
   let arith : Option String := (List.range np).findSome? (fun i =>
-    let r := raws.getD i ⟨[], [], none, none, 0⟩
+    let r := raws.getD i blankRaw
     let mine := (impl.filter (fun f => f.1 == i)).map (fun f => ratOfF32Bits f.2)
     match r.toQ, allSome mine with
     | some p, some ms =>
@@ -167,9 +216,11 @@ def specIdx (kinds : List Kind) (minIdx : Nat) (raws : List RawPep) (impl : List
   match arith with
   | some s => s
   | none =>
-  -- 5. bit-exact: the multiset is the by-ordinal selection from the series
-  let want := (bitsOf (specFragments constsF kinds minIdx (raws.map RawPep.toF))).mergeSort lePair
-  if want != impl then "bad:content" else "ok"
+  -- 6. bit-exact, per peptide index: the multiset is the by-ordinal selection from that peptide's series
+  match (List.range np).find? (fun i =>
+      ((impl.filter (fun f => f.1 == i)).map (·.2)).mergeSort leNat != wantBits kinds minIdx (raws.getD i blankRaw)) with
+  | some i => s!"bad:content@pep{i}"
+  | none => "ok"
 
 def pIdxReply : P (List (Nat × Nat)) := list (do let i ← nat; let m ← nat; pure (i, m))
 
@@ -221,6 +272,56 @@ def handle (op : String) (args impl : List String) : Option Reply :=
       else match run pIdxReply impl with
         | none => "bad:shape"
         | some fr => specIdx kinds minIdx raws fr
+    pure (exact model (" ".intercalate impl) spec)
+  | "ionidxb" => do
+    let (_style, minO, kindsO, bucketO, threads, raws) ← run (do
+      let st ← nat; let m ← opt nat; let k ← opt (list nat); let b ← opt nat
+      let ts ← list nat; let ps ← list pRaw; pure (st, m, k, b, ts, ps)) args
+    let kindsO' ← match kindsO with
+      | none => some none
+      | some ks => (allSome (ks.map Kind.ofNat?)).map some
+    if threads.isEmpty then none
+    let bld : Builder := { minIonIndex := minO, ionKinds := kindsO', bucketSize := bucketO }
+    let prm := bld.makeParameters
+    let peps := raws.map RawPep.toF
+    let head := s!"{prm.minIonIndex} " ++ outList (fun k => toString (Kind.all.idxOf k)) prm.ionKinds ++ s!" {prm.bucketSize}"
+    let model : String :=
+      match buildFromBuilder? constsF bld peps with
+      | none => "panic"
+      | some fr =>
+        " ".intercalate (head :: renderFrags ((bitsOf fr).mergeSort lePair) :: (threads.drop 1).map (fun _ => "1") ++ ["1"])
+    let pBlocks : P (Nat × List Nat × Nat × List (Nat × List (Nat × Nat)) × Nat) := do
+      let m ← nat; let ks ← list nat; let b ← nat
+      let first ← pIdxReply
+      let rest ← listN (do
+        let same ← nat
+        if same == 1 then pure first else pIdxReply) (threads.length - 1)
+      let ord ← nat
+      pure (m, ks, b, (threads.zip (first :: rest)), ord)
+    let spec : String :=
+      if !(prm.ionKinds.isEmpty || raws.all inDomain) then "na"
+      else if impl == ["panic"] then "bad:panic_in_domain"
+      else match run pBlocks impl with
+        | none => "bad:shape"
+        | some (m, ks, b, blocks, ord) =>
+          let first := (blocks.headD (0, [])).2
+          let dep := blocks.any (fun tb => tb.2 != first)
+          let depS := if dep then ":thread_dependent" else ""
+          -- the content is judged against the CONFIGURED settings (request), pool size by pool size
+          match blocks.findSome? (fun tb =>
+              let v := specIdx prm.ionKinds prm.minIonIndex raws tb.2
+              if v == "ok" then none else some s!"{v}:threads{tb.1}") with
+          | some v => v ++ depS
+          | none =>
+            if dep then "bad:thread_dependent"
+            else if m != prm.minIonIndex then
+              (if minO.isSome then s!"bad:min_ion_index_not_as_configured:{m}" else s!"bad:min_ion_index_default:{m}")
+            else if ks != prm.ionKinds.map (fun k => Kind.all.idxOf k) then
+              (if kindsO.isSome then "bad:ion_kinds_not_as_configured" else "bad:ion_kinds_default")
+            else if b != prm.bucketSize then s!"bad:bucket_size:{b}"
+            -- layout bit computed by the harness: buckets ascending in m/z, each sorted by peptide index, min_value right
+            else if ord != 1 then "bad:index_order"
+            else "ok"
     pure (exact model (" ".intercalate impl) spec)
   | _ => none
 
